@@ -151,7 +151,12 @@ XML256TableTranscoder::transcodeTo( const   XMLCh* const    srcData
 
 bool XML256TableTranscoder::canTranscodeTo(const unsigned int toCheck)
 {
-    return (xlatOneTo(toCheck) != 0);
+    //  The tables only know the BMP; don't let a supplementary code point
+    //  be truncated to 16 bits by the call below.
+    if (toCheck > 0xFFFF)
+        return false;
+
+    return (xlatOneTo(XMLCh(toCheck)) != 0);
 }
 
 
